@@ -155,7 +155,9 @@ def _init_shapes(cls, res):
             fam["flat"] = (np.ones(int(np.prod(shape))), ValueError)
             fam["transposed"] = (np.ones(tuple(shape)[::-1]), ValueError if tuple(shape)[::-1] != tuple(shape) else None)
             fam["rank-1"] = (np.ones(shape[:-1]) if len(shape[:-1]) else np.ones(3), ValueError)
-            fam["mixed_ghost"] = (np.ones((shape[0] + 2,) + tuple(shape[1:])), ValueError)
+            for mask in itertools.product((0, 2), repeat=d):
+                if 0 < sum(mask) < 2 * d:       # ghost cells along some axes only
+                    fam["mixed_ghost%s" % (list(mask),)] = (np.ones(tuple(s_ + m_ for s_, m_ in zip(shape, mask))), ValueError)
         for name, (val, want) in fam.items():
             for with_bc in (False, True):
                 def f():
